@@ -67,7 +67,7 @@ def run(ctx):
         seen.add(key)
         c = dict(o["case"])
         c.pop("url", None)
-        if ctx.finding(key, what, {"case": c, "observed": {k: o.get(k) for k in ("states", "calls", "late_calls", "err", "panic")},
+        if ctx.finding(key, what, {"case": c, "observed": {k: o.get(k) for k in ("states", "calls", "late_calls", "leaks", "err", "panic")},
                                    "how": "work/bin/clientharness c25 -replay <this file>: scripted server injects case.s.err while Connected, then answers Dial/ActivateSession/CreateSession/namespace reads per the 0/1 strings in case.s; states: 0 Closed 1 Connected 2 Connecting 3 Disconnected 4 Reconnecting"}):
             new += 1
 
@@ -91,6 +91,8 @@ def run(ctx):
         if close:
             if not st or st[-1] != 0:
                 report("not-closed-after-close", "state after Close is %s" % (st[-1:] or None), o)
+            if o.get("leaks"):
+                report("goroutines-after-close/" + o["leaks"][0].strip("/"), "%d goroutines are still running library code 3 s after Close: %s" % (len(o["leaks"]), sorted(set(o["leaks"]))), o)
             if o.get("late_calls", 0) > 0:
                 report("calls-after-close", "%d connection attempts / session calls after Close" % o["late_calls"], o)
         elif auto and c["s"]["err"] != "nosub" and (not st or st[-1] != 1):
@@ -125,11 +127,12 @@ def run(ctx):
         "samples": [{k: o.get(k) for k in ("case", "states", "calls")} for o in usable[:3] + usable[-2:]],
         "state_sequences": dict(collections.Counter(" ".join(str(x) for x in o["states"]) for o in usable).most_common(12)),
         "traces_validated_against_impl": len(lines),
+        "close_runs_checked_for_goroutines": len([o for o in usable if o["case"]["p"].get("close") == 1]),
         "model_impl_mismatches": len(mism),
     })
     ctx.assumptions += [
         "faults are injected by the scripted server (connection drop, ServiceFault with the selecting status, connection closed after the handshake = failed Dial, faulted session calls) instead of a TCP proxy in front of the stock server: the client code path is the same",
-        "ECONNREFUSED (abortReconnect) is only in the model; goroutine leaks and real-time bounds are not claimed (partial)",
+        "ECONNREFUSED (abortReconnect) is only in the model; real-time bounds are not claimed; goroutines after Close are checked on the implementation only (stack dump of the client process after a settling delay of up to 3 s: no goroutine may be inside github.com/gopcua/opcua), not modelled",
         "the bounded liveness theorem enumerates environments with at most two scripted outcomes per call kind",
     ]
     ctx.conclude(proof_ok, corr_ok, new, detail)
